@@ -258,7 +258,7 @@ var initAllowPrefixes = []string{
 	"go.uber.org/atomic", "go.uber.org/multierr", "golang.org/x/sync",
 	"io", "bytes", "strings", "strconv", "unicode", "unicode/utf8", "unicode/utf16", "encoding/binary",
 	"encoding/base64", "encoding/hex", "math", "math/bits", "context", "time", "sort", "slices", "maps", "cmp",
-	"bufio", "hash", "hash/crc32", "container/list", "container/heap", "iter", "path", "math/rand",
+	"bufio", "hash", "hash/crc32", "path/filepath", "io/fs", "internal/oserror", "container/list", "container/heap", "iter", "path", "math/rand",
 	"github.com/cenkalti/backoff/v4",
 }
 
@@ -691,6 +691,27 @@ func (r *Run) native(results []*HarnessResult) {
 				continue
 			}
 			f.Replay = file
+			if hasKind(f.Path, 'c') {
+				// the counterexample depends on where the process crashes between two file-system
+				// calls: no native run can stop there. It is replayed in the interpreter instead,
+				// on the real code, with the recorded crash decisions and the concrete inputs.
+				cfg := *hr.Cfg
+				var free []interp.Decision
+				for _, d := range f.Path {
+					if d.Kind == 'c' || d.Kind == 's' || d.Kind == 'x' {
+						free = append(free, d)
+					}
+				}
+				cfg.FreeChoices = free
+				hr2 := &HarnessResult{Cfg: &cfg}
+				cres := r.concreteRun(hr2, f.Model)
+				f.NativeOK = cres != nil && contains(cres.ConcreteFails, f.ID)
+				f.Msg += " [replayed in the interpreter with the recorded crash point: a native run cannot stop between two system calls]"
+				if !f.NativeOK {
+					f.Spur = true
+				}
+				continue
+			}
 			switch {
 			case f.ID == "panic":
 				f.NativeOK = no.Panic != ""
@@ -952,3 +973,12 @@ func max1(n int) int {
 }
 
 func round2(f float64) float64 { return float64(int(f*100)) / 100 }
+
+func hasKind(path []interp.Decision, k byte) bool {
+	for _, d := range path {
+		if d.Kind == k {
+			return true
+		}
+	}
+	return false
+}
